@@ -53,7 +53,11 @@ def run_contract(task, budget_s=120):
     reg = load_contracts()
     name = task['function']
     c = reg[name]
-    out = {'function': name, 'obligations': [], 'dropped': [], 'canary_proved': False}
+    out = {'function': name, 'obligations': [], 'dropped': [], 'canary_proved': False,
+           # what the proof of this function assumes beyond its requires clauses
+           'assumed': {'definitional_axioms': list(c.get('axioms', [])), 'lemmas_used_as_axioms': list(c.get('uses_lemmas', [])),
+                       'ghost_arguments': list(c.get('ghost_args', {})),
+                       'callee_contracts': sorted(set(list(c.get('imports', {}).values()) + list(c.get('super_calls', {}).values())))}}
     t_end = time.time() + budget_s
     try:
         if c.get('kind') == 'lemma':
